@@ -6,6 +6,7 @@ import Oracle.Prec
 import Oracle.Exhaust
 import Oracle.TypeExpr
 import Oracle.Literal
+import Oracle.SampleMd
 open Oracle
 
 /-- a line is `(<stream> payload...)`; the answer is one S-expression -/
@@ -16,6 +17,7 @@ def handle (line : String) : String :=
     | "echo" => toString (Sx.list payload)
     | "slice.hist" => toString (Oracle.Slice.handle payload)
     | "c11.scan" | "c11.interp" | "c11.unquote" | "c11.sprintf" | "c11.lit" => toString (Oracle.Literal.handle stream payload)
+    | "c18.run" => toString (Oracle.SampleMd.handle payload)
     | "c15.type" => toString (Oracle.TypeExpr.handle payload)
     | "c09.match" => toString (Oracle.Exhaust.handle payload)
     | "c08.chain" => toString (Oracle.Prec.handle payload)
